@@ -129,6 +129,49 @@ R2.update({
  "C11-6": ("/tmp/seeds5/E/4", "C11", "abort while the consumer is not inside poll_frame: size_hint exact(0) in the Err state and is_end_stream derived from it, so the body claims end-of-stream with the error pending", ["C12"]),
 })
 
+# sixth round: two changes per property, "needs something specific", with everything used so far as "avoid"
+R2.update({
+ "C04-7": ("/tmp/seeds6/C/C04-1", "C04", "If-Modified-Since later than the SERVER'S CLOCK (client clock ahead, year 9999, LM+1s on a fresh file) with If-None-Match absent: treated as invalid and ignored, 200 instead of 304", ["C14"]),
+ "C04-8": ("/tmp/seeds6/C/C04-2", "C04", "If-Modified-Since / If-Unmodified-Since in the RFC 850 form (30..33 bytes, e.g. `Sunday, 06-Nov-94 08:49:37 GMT`): shared date helper rejects values longer than 29 bytes with 400", ["C13"]),
+ "C05-5": ("/tmp/seeds6/C/C05-1", "C05", "If-Range of the same LENGTH as the strong ETag that differs only in its last byte (closing quote replaced: \"foo' / \"foo, / \"fooo): contents compared by position, Range honoured", ["C04"]),
+ "C05-6": ("/tmp/seeds6/C/C05-2", "C05", "strong ETag containing a comma (\"a, b\") echoed byte-identically in If-Range: refused as a 'list', complete 200 instead of 206", ["C14"]),
+ "C03-8": ("/tmp/seeds6/B/C03-1", "C03", "a position of exactly 2^64 .. 2^64+3 in any spec form: hand-rolled digit loop checks the multiply but not the final add (panic with overflow checks; wraps to 0..3 and answers 206 without)", ["C13"]),
+ "C03-9": ("/tmp/seeds6/B/C03-2", "C03", "entity large enough for multipart and two CONSECUTIVE specs resolving to the same bytes, also in different spellings (990-,-10): ranges.dedup() after the multipart decision, one part fewer", ["C06"]),
+ "C13-5": ("/tmp/seeds6/B/C13-1", "C13", "entity of 2^64-1 bytes and ranges whose total S satisfies S + 80n < L but S + real overhead >= 2^64 (2^64-209 <= S <= 2^64-162 for two parts): 413 branch removed, expect() panics", ["C06", "C01"]),
+ "C13-6": ("/tmp/seeds6/B/C13-2", "C13", "non-GET/HEAD method together with a FAILING or MALFORMED conditional header (If-Match miss, early If-Unmodified-Since, garbage date): method gate moved behind the precondition check, 412 / 400 instead of 405", []),
+ "C08-4": ("/tmp/seeds6/E/C08-1", "C08", "consumer polls the empty live body twice with two DIFFERENT wakers before any flush: the replace-waker arm leaves the state ReaderFused, stream ends early, writer gets BrokenPipe", ["C10", "C11"]),
+ "C08-5": ("/tmp/seeds6/E/C08-2", "C10", "producer critical section between the reader's queue check and its waker store (waker cloned outside the lock): lost wake-up", ["C08"]),
+ "C09-6": ("/tmp/seeds6/E/C09-1", "C09", "gzip negotiated and with_gzip_level(9): writer choice uses (1..9).contains, header site keeps level > 0: header says gzip, body is plain", ["C17"]),
+ "C09-7": ("/tmp/seeds6/E/C09-2", "C09", "gzip: non-empty writes, then a direct write(&[]) as the last write before a flush: 'unflushed' flag overwritten, the flush is a no-op, streaming decoder gets nothing", []),
+ "C01-4": ("/tmp/seeds6/A/C01-1", "C01", "honest entity stream that returns Pending exactly once between its LAST chunk and its end: look-ahead poll with ready! after remaining was zeroed drops the final chunk, clean end short of Content-Length", ["C02", "C07", "C12"]),
+ "C01-5": ("/tmp/seeds6/A/C01-2", "C01", "entity length at or near 2^64-1 with ranges for which sum + 80n < len but the real multipart length >= 2^64: checked_add chain and 413 branch removed (panic / wrapped Content-Length)", ["C06", "C13"]),
+ "C02-4": ("/tmp/seeds6/A/C02-1", "C02", "Range: bytes=-0 (or -00), alone or inside a list: suffix arithmetic 'tidied' with saturating_sub, zero suffix no longer dropped: 206 with Content-Range L-(L-1)/L or a degenerate multipart part", ["C03"]),
+ "C02-5": ("/tmp/seeds6/A/C02-2", "C06", "multipart with a MATCHING If-Range (parts without entity headers): the blank line ending each part's header block moved inside the entity-header branch, header block runs into the data", ["C02", "C01"]),
+ "C10-9": ("/tmp/seeds6/F/C10-1", "C10", "write, flush, write, drop WITHOUT a final flush while the flushed short chunk is still unconsumed (chunk size > both writes): top-up path returns before publishing writer_dropped, consumer parks forever; gzip: write flush drop", ["C08", "C11"]),
+ "C10-10": ("/tmp/seeds6/F/C10-2", "C10", "consumer poll whose lock attempt collides with a writer critical section while no waker is stored: try_lock failure answered with Pending without registering a waker (needs real lock contention)", []),
+ "C11-7": ("/tmp/seeds6/F/C11-1", "C11", "body dropped, then a raw-writer write offering strictly MORE bytes than the space left in the current chunk: the chunk-completing short write swallows the flush error and returns Ok(space_left)", []),
+ "C11-8": ("/tmp/seeds6/F/C11-2", "C11", "abort directly after a successful flush with no byte written in between (.. flush abort flush): 'unflushed' fast path runs before the Dead check, every later flush returns Ok", []),
+ "C12-7": ("/tmp/seeds6/G/C12-1", "C12", "multipart GET whose part chunk is a MULTI-SEGMENT Buf (chunk().len() < remaining()): remaining decremented by the first segment only, exact hint too high, end flag never true", ["C01", "C06"]),
+ "C12-8": ("/tmp/seeds6/G/C12-2", "C12", "multipart with an entity length or range position >= 10^19 (20 decimal digits): arithmetic digit counter exits at 10^19, Content-Length / hint 1 short per such number", ["C06", "C01"]),
+ "C20-5": ("/tmp/seeds6/G/C20-1", "C20", "GZIP streaming body aborted at any position, then >= 1 extra poll after the error: error queued as an item, the encoder's Drop writes header/trailer behind it, extra polls yield data and then a clean end", ["C11"]),
+ "C20-6": ("/tmp/seeds6/G/C20-2", "C20", "multipart GET whose part stream ends EARLY (too short; not an entity error, not too long), then >= 1 extra poll: the too-short arm does not fuse, next part's header / trailer delivered after the error", ["C07"]),
+ "C06-8": ("/tmp/seeds6/D/C06-1", "C06", "multipart without If-Range and an entity header VALUE with leading/trailing space or tab: per-part length computed from the untrimmed values, rendering trims them (two cooperating edits): Content-Length too large", ["C01", "C12"]),
+ "C06-9": ("/tmp/seeds6/D/C06-2", "C06", "a SEQUENCE on one OS thread: a multi-range request that correctly gets 413 (length overflow), then any multipart response: thread_local scratch buffer not cleared on the 413 path, the next response's parts carry the earlier entity's headers", ["C01", "C14"]),
+ "C07-4": ("/tmp/seeds6/D/C07-1", "C07", "Entity::Data that is a NON-CONTIGUOUS Buf with the surplus bytes of an over-long stream in a later segment: shared chunk_len() helper counts chunk().len(), surplus passed on beyond the announced length", ["C01", "C12"]),
+ "C14-5": ("/tmp/seeds6/H/C14-1", "C14", "entity whose add_headers appends the same header name more than once (two Content-Language): 200 / single 206 keep only the first value", ["C06"]),
+ "C14-6": ("/tmp/seeds6/H/C14-2", "C14", "strong ETag with obs-text bytes (>= 0x80) echoed in If-Range: helper goes through to_str(), Range ignored, 200 instead of 206", ["C05"]),
+ "C15-6": ("/tmp/seeds6/H/C15-1", "C15", "HEAD multi-range (multipart zone) with a part whose last byte position is 9, 99, 999...: HEAD-only length arithmetic counts the digits of the half-open end, Content-Length one more than GET's per such part", ["C06", "C01"]),
+ "C15-7": ("/tmp/seeds6/H/C15-2", "C15", "HEAD on an entity near 2^64 with ranges that pass the 80-byte estimate but whose exact multipart length overflows: GET answers 413, HEAD panics (checked build) / 206 with a wrapped length", ["C13", "C06"]),
+ "C16-6": ("/tmp/seeds6/I/C16-1", "C16", "three elements at once: identity;q=0, gzip;q=G (G>0) and *;q=S with S>G: the refused identity is not recorded and inherits *'s quality", ["C17"]),
+ "C16-7": ("/tmp/seeds6/I/C16-2", "C16", "valid UTF-8 header whose weight parameter has a multi-byte character as its second byte (gzip;q\\xc3\\xa9=1): str slice at a non-boundary panics (two cooperating edits)", []),
+ "C17-6": ("/tmp/seeds6/I/C17-1", "C17", "gzip negotiated and the writer dropped without a single write or flush: lazily created encoder never exists, 0-byte body under Content-Encoding: gzip", ["C09"]),
+ "C17-7": ("/tmp/seeds6/I/C17-2", "C17", "gzip: a write shorter than 256 bytes followed, with no flush between, by a write of >= 256 bytes: batched short write is emitted AFTER the long one (well-formed member, wrong byte order)", ["C09"]),
+ "C18-7": ("/tmp/seeds6/J/C18-1", "C18", "same inode and length, mtimes mirrored around the epoch by less than a second (epoch-d vs epoch+d): signed seconds formatted, -0 == 0, identical ETag", []),
+ "C18-8": ("/tmp/seeds6/J/C18-2", "C18", "file whose mtime lies in the future: constructor stores min(mtime, now), so last_modified() is not the file's and two instances on the untouched file get different ETags", []),
+ "C19-7": ("/tmp/seeds6/J/C19-1", "C19", "request path that itself ends in .gz (a.gz) with a.gz.gz present, auto_gzip on, gzip preferred: probe skipped, plain a.gz served, encoding() None", []),
+ "C19-8": ("/tmp/seeds6/J/C19-2", "C19", "plain file's mtime newer than its .gz sibling's (by >= 1 ns): 'stale precompressed file' guard refuses the substitution", []),
+})
+
 def sh(cmd, **kw):
     return subprocess.run(cmd, shell=True, capture_output=True, text=True, **kw)
 
